@@ -9,6 +9,7 @@ import (
 	"encoding/json"
 	"fmt"
 	"os"
+	"strings"
 	"time"
 
 	"github.com/aldas/go-modbus-client/verifshim/vsched"
@@ -143,7 +144,22 @@ func items(tier string) []item {
 		add(d, sc)
 		add(1, mk("E/shutdown-two", cb, "sleep10", "shutdown", 5, c0idle, c1par))
 	}
+	// two (three) requests in flight when Shutdown starts; everybody stays connected afterwards, so a connection that
+	// Shutdown forgets stays open
+	for _, cb := range []int{15, 0} {
+		for _, h := range []string{"sleep120", "sleep10"} {
+			sc := mk("E/two-inflight-at-shutdown", cb, h, "shutdown", 4, c0idle, c0idle)
+			sc.ControlAtHandled = 2
+			add(1, sc)
+		}
+		sc := mk("E/three-inflight-at-shutdown", cb, "sleep120", "shutdown", 6, c0idle, c0idle, c0idle)
+		sc.ControlAtHandled = 3
+		add(1, sc)
+	}
 	if thorough {
+		sc2 := mk("E/two-inflight-at-shutdown", 15, "sleep120", "shutdown", 4, c0idle, c0idle)
+		sc2.ControlAtHandled = 2
+		add(2, sc2)
 		add(2, mk("E/shutdown-two", 15, "sleep120", "shutdown", 5, c0idle, c1par))
 		add(1, mk("E/three", 15, "instant", "shutdown", 8, c0idle, c1late, []string{"quiesce", "dial", "send", "recv", "close"}))
 	}
@@ -218,6 +234,11 @@ func runItem(it item, shard, n int, res *ev.Result, lc *local, stop func() bool)
 				Msg: fmt.Sprintf("%s cb=%04b handler=%s control=%s@%d d<=%d choices=%v: %s", it.sc.Name, it.sc.Callbacks, it.sc.Handler, it.sc.Control, it.sc.ControlAt, it.budget, c.Choices, v.Msg), Case: c})
 		}
 	}
+	defer func() {
+		if rec := recover(); rec != nil {
+			panic(fmt.Sprintf("%v [item %s cb=%04b handler=%s control=%s@%d d<=%d]", rec, it.sc.Name, it.sc.Callbacks, it.sc.Handler, it.sc.Control, it.sc.ControlAt, it.budget))
+		}
+	}()
 	st := explore.ExploreShard(body, shard, n, stop)
 	lc.points += st.Points
 	key := fmt.Sprintf("%s/cb%d/%s/d%d", it.sc.Name, it.sc.Callbacks, it.sc.Handler, it.budget)
@@ -238,6 +259,9 @@ func run(tier string, shard, n int, res *ev.Result) {
 	lc := &local{}
 	its := items(tier)
 	for _, it := range its {
+		if f := os.Getenv("VERIF_ITEM"); f != "" && !strings.Contains(it.sc.Name, f) { // debugging aid: run only matching items
+			continue
+		}
 		if stop() {
 			res.Incomplete = append(res.Incomplete, it.sc.Name+" (not started)")
 			continue
